@@ -5,6 +5,7 @@ import json
 import os
 
 import gen_trie
+import rtree_corr
 import vlib
 
 PID = "C02"
@@ -72,7 +73,7 @@ def shrink(R, exe, case):
 
 
 def run(R):
-    lean_ok = vlib.step_lean(R, PID)
+    lean_ok = vlib.step_lean(R, PID, extra=("C02Byte",))
     exe = vlib.step_harness(R)
     if exe is None:
         R.violation("harness does not build against /repo (API used by the correspondence check changed)",
@@ -107,6 +108,16 @@ def run(R):
         "samples": [cases[len(corpus)] if len(cases) > len(corpus) else cases[0]],
         "exhaustive": False,
     })
+    # structural correspondence of the byte-level Lean model (Model/RTree.lean) with the real tree: complete tree
+    # dumps after every batch; the driver also re-checks WF, find-refinement and abs-commutation on every case
+    nb = 1500 if R.tier == "quick" else 60000
+    rcases = [gen_trie.gen_trie_case(R.rng) for _ in range(nb * 3 // 4)] + rtree_corr.extra_cases(R.rng, nb // 4)
+    rbad = rtree_corr.check(R, exe, rcases)
+    R.coverage["rtree_corr"]["cases"] = len(rcases)
+    for c, i, m in rbad[:3]:
+        R.violation("byte-level tree model differs structurally from the real radix tree (dump / lookup / "
+                    "well-formedness): " + json.dumps(rtree_corr.first_diff(i, vlib.res_of(m)))[:400],
+                    {"case": c, "impl": i, "model": vlib.res_of(m), "kind": "impl-vs-byte-level-model"}, no_input=True)
     if R.tier == "thorough":
         R.coverage["small_scope"] = "all 3-route tables over 11 expressions x 8 flag vectors x 10 paths x 7 accept sets"
     R.assumptions += [
